@@ -22,6 +22,7 @@ import numpy as _np
 import z3
 
 BVW = None          # None -> Int back end; integer -> signed bit-vectors of that width
+EAGER_FLOOR = True
 
 
 class Abort(BaseException):
@@ -556,6 +557,15 @@ def _floor_term(t):
         return math.floor(Fr(t.numerator_as_long(), t.denominator_as_long()))
     k = z3.Int(ctx.fresh_name('floor'))
     ctx.assume(z3.And(z3.ToReal(k) <= t, t < z3.ToReal(k) + 1))
+    if EAGER_FLOOR:
+        # n-way split right away: every use of a floor in pygyro is an index; a concrete value keeps all later
+        # terms polynomial (k = m would otherwise have to be eliminated by the solver in every query)
+        saved = BVW
+        try:
+            set_bv(None)
+            return ctx.fork_index(k)
+        finally:
+            set_bv(saved)
     return SInt(k)
 
 
